@@ -33,11 +33,12 @@ const (
 	fDropAfter
 	fSilent
 	fLeaderMove    // leader moves to another broker, metadata follows; the batch is answered NOT_LEADER
+	fNoLeader      // the partition loses its leader for the next few metadata answers (NOT_LEADER now, LEADER_NOT_AVAILABLE in metadata), then gets one again
 	fLeaderMoveLag // as above, but the old leader keeps answering NOT_LEADER for a while before metadata follows (modelled by the same move: the client refreshes on its own)
 	nFaultLetters
 )
 
-var faultNames = []string{"ok", "retry-noappend", "retry-after-append", "fatal", "omit-block", "drop-before", "drop-after", "silent", "leader-move", "leader-move-lag"}
+var faultNames = []string{"ok", "retry-noappend", "retry-after-append", "fatal", "omit-block", "drop-before", "drop-after", "silent", "leader-move", "no-leader", "leader-move-lag"}
 
 var retriableNoAppend = []sarama.KError{sarama.ErrNotLeaderForPartition, sarama.ErrLeaderNotAvailable, sarama.ErrUnknownTopicOrPartition, sarama.ErrNotEnoughReplicas}
 var retriableAfterAppend = []sarama.KError{sarama.ErrRequestTimedOut, sarama.ErrNotEnoughReplicasAfterAppend}
@@ -89,6 +90,7 @@ type prodScenario struct {
 	Submitters       int
 	Faults           []int
 	FaultCodes       []sarama.KError
+	NoLeaderFor      int // fNoLeader: metadata requests the partition stays leaderless for (0 = 4 + i%5)
 	MetaFail         int
 	Leaderless       map[string]bool // "topic/part" without leader at start
 	Steer            []steerSpec
@@ -115,7 +117,7 @@ func (sc *prodScenario) describe() map[string]interface{} {
 		"retry_max": sc.RetryMax, "idempotent": sc.Idempotent, "acks": int(sc.Acks), "flush": fmt.Sprintf("msgs=%d bytes=%d max=%d freq=%v", sc.FlushMessages, sc.FlushBytes, sc.FlushMaxMessages, sc.FlushFreq),
 		"codec": sc.Codec.String(), "max_message_bytes": sc.MaxMessageBytes, "max_request_size": sc.MaxRequestSize, "partitioner": sc.Partitioner,
 		"messages": len(sc.Msgs), "submitters": sc.Submitters, "fault_word": fw, "meta_fail": sc.MetaFail, "steer": sc.Steer,
-		"interceptors": sc.Interceptors, "sync": sc.Sync, "close": sc.CloseMode, "sequential_group": sc.Sequential,
+		"no_leader_for": sc.NoLeaderFor, "interceptors": sc.Interceptors, "sync": sc.Sync, "close": sc.CloseMode, "sequential_group": sc.Sequential,
 	}
 }
 
@@ -284,7 +286,27 @@ func runProd(sc *prodScenario, rng *rand.Rand) *prodResult {
 	// fault word
 	var fi int32
 	var metaN int32
+	type pendingLeader struct {
+		topic  string
+		part   int32
+		leader int32
+		after  int32 // restore once this many metadata requests have been served
+	}
+	var plMu sync.Mutex
+	var pendingLeaders []pendingLeader
 	sim.OnMetadata = func(ctx *sarama.VSimReqCtx) sarama.VSimConnAction {
+		plMu.Lock()
+		n := atomic.LoadInt32(&metaN) + 1
+		keep := pendingLeaders[:0]
+		for _, pl := range pendingLeaders {
+			if n > pl.after {
+				sim.SetLeader(pl.topic, pl.part, pl.leader)
+			} else {
+				keep = append(keep, pl)
+			}
+		}
+		pendingLeaders = keep
+		plMu.Unlock()
 		if int(atomic.AddInt32(&metaN, 1)) > 1 && int(atomic.LoadInt32(&metaN)) <= 1+sc.MetaFail {
 			return sarama.VSimConnAction{Kind: sarama.VConnDropBefore}
 		}
@@ -314,6 +336,16 @@ func runProd(sc *prodScenario, rng *rand.Rand) *prodResult {
 			return sarama.VSimProduceAction{Kind: sarama.VPDropAfter}
 		case fSilent:
 			return sarama.VSimProduceAction{Kind: sarama.VPSilentAfter}
+		case fNoLeader:
+			plMu.Lock()
+			dur := int32(4 + i%5)
+			if sc.NoLeaderFor > 0 {
+				dur = int32(sc.NoLeaderFor)
+			}
+			pendingLeaders = append(pendingLeaders, pendingLeader{ctx.Topic, ctx.Partition, ctx.Broker, atomic.LoadInt32(&metaN) + dur}) // one failing leader lookup costs Metadata.Retry.Max+1 = 4 metadata requests
+			plMu.Unlock()
+			sim.SetLeader(ctx.Topic, ctx.Partition, -1)
+			return sarama.VSimProduceAction{Kind: sarama.VPErrNoAppend, Code: sarama.ErrNotLeaderForPartition}
 		case fLeaderMove, fLeaderMoveLag:
 			if sc.Brokers > 1 {
 				next := ctx.Broker%int32(sc.Brokers) + 1
